@@ -139,6 +139,16 @@ func (f *trFunc) stmt0(s ast.Stmt, ind string) []string {
 		} else if len(s.Results) == 1 && sig.Results().Len() > 1 {
 			c, ok := ast.Unparen(s.Results[0]).(*ast.CallExpr)
 			g, _ := f.callee(c)
+			if ok && g != nil && f.inLedger() && len(g.resOpt) == sig.Results().Len() {
+				v := f.expr(c)
+				out = append(out, f.flush(ind, &f.pre)...)
+				q := f.tmp("__q")
+				out = append(out, fmt.Sprintf("%slet %s := %s", ind, q, v))
+				for i := range g.resOpt {
+					rs = append(rs, proj(q, i, len(g.resOpt)))
+				}
+				return append(out, ind+f.returnLine(s, rs))
+			}
 			if !ok || g == nil || len(g.mutParams) > 0 || len(f.mutParams) > 0 {
 				f.problem(s, "return of a multi-value call")
 			} else {
@@ -242,10 +252,22 @@ func (f *trFunc) exprStmt(x ast.Expr, at ast.Stmt, ind string) []string {
 		f.problem(at, "expression statement `%s`", f.src(x))
 		return nil
 	}
+	if lines, ok := f.ledgerStmt(c, at, ind); ok {
+		return lines
+	}
+	if lines, ok := f.persistStmt(c, at, ind); ok {
+		return lines
+	}
 	// delete(m, k)
 	if id, ok := ast.Unparen(c.Fun).(*ast.Ident); ok && id.Name == "delete" && len(c.Args) == 2 {
 		if _, isB := f.info.Uses[id].(*types.Builtin); isB {
 			m := mapOf(f.typeOf(c.Args[0]))
+			if f.inLedger() && isLedgerMap(f.typeOf(c.Args[0])) {
+				key := f.arg(c.Args[1])
+				cont := f.arg(c.Args[0])
+				out = append(out, f.flush(ind, &f.pre)...)
+				return append(out, f.assignTo0(c.Args[0], fmt.Sprintf("(%s.erase %s)", cont, key), false, at, ind)...)
+			}
 			if m == nil || !isStringType(m.Key()) {
 				f.problem(at, "delete on %s", f.tr.pr.typeStr(f.typeOf(c.Args[0])))
 				return nil
@@ -268,9 +290,17 @@ func (f *trFunc) exprStmt(x ast.Expr, at ast.Stmt, ind string) []string {
 		}
 	}
 	// sort.Sort(T(x)): an abstract sort for T's translated Less, passed as an explicit parameter
-	if xs := f.sortedExpr(c); xs != nil {
-		conv := ast.Unparen(c.Args[0]).(*ast.CallExpr)
-		tv := f.info.Types[conv.Fun]
+	xsSort := f.sortedExpr(c)
+	var sortT types.Type
+	if xsSort != nil {
+		sortT = f.info.Types[ast.Unparen(c.Args[0]).(*ast.CallExpr).Fun].Type
+	} else if f.inLedger() {
+		if xsSort = f.sortArgDirect(c); xsSort != nil {
+			sortT = f.typeOf(xsSort)
+		}
+	}
+	if xs := xsSort; xs != nil {
+		tv := struct{ Type types.Type }{sortT}
 		var less *types.Func
 		ms := types.NewMethodSet(tv.Type)
 		for i := 0; i < ms.Len(); i++ {
@@ -283,7 +313,7 @@ func (f *trFunc) exprStmt(x ast.Expr, at ast.Stmt, ind string) []string {
 			g = f.tr.get(less.Origin())
 		}
 		if g == nil || len(g.problems) > 0 || len(g.extras) > 0 || len(g.mutParams) > 0 {
-			f.problem(at, "sort.Sort(%s): the Less method of the order is not a translated whitelisted function", f.src(conv.Fun))
+			f.problem(at, "sort.Sort(%s): the Less method of the order is not a translated whitelisted function", f.tr.pr.typeStr(sortT))
 			return nil
 		}
 		_, tn := recvTypeName(tv.Type)
@@ -384,6 +414,13 @@ func (f *trFunc) assignTo0(l ast.Expr, val string, define bool, at ast.Node, ind
 		return nil
 	case *ast.SelectorExpr:
 		o := f.objOf(l.X)
+		if o == nil && f.round4() {
+			if ro, path := f.fieldPath(l, at); ro != nil && !f.opt[ro] {
+				n := f.nameOf(ro)
+				f.assigned[ro] = true
+				return []string{fmt.Sprintf("%s%s := { %s with %s := %s }", ind, n, n, path, val)}
+			}
+		}
 		if o == nil {
 			f.problem(at, "assignment to `%s` (nested field)", f.src(l))
 			return nil
@@ -401,6 +438,11 @@ func (f *trFunc) assignTo0(l ast.Expr, val string, define bool, at ast.Node, ind
 		}
 		return []string{fmt.Sprintf("%s%s := { %s with %s := %s }", ind, n, n, fld, val)}
 	case *ast.IndexExpr:
+		if f.inLedger() && isLedgerMap(f.typeOf(l.X)) {
+			key := f.arg(l.Index)
+			cont := f.arg(l.X)
+			return f.assignTo0(l.X, fmt.Sprintf("(%s.insert %s (← gderef %s))", cont, key, paren(val)), false, at, ind)
+		}
 		if m := mapOf(f.typeOf(l.X)); m != nil && isStringType(m.Key()) {
 			key := f.arg(l.Index)
 			cont := f.arg(l.X)
@@ -464,8 +506,24 @@ func (f *trFunc) assignStmt(s *ast.AssignStmt, ind string) []string {
 	if lines, ok := f.ctrlAssign(s, define, ind); ok {
 		return lines
 	}
+	if lines, ok := f.ledgerAssign(s, define, ind); ok {
+		return lines
+	}
 	// v, ok := m[k]
 	if len(s.Lhs) == 2 && len(s.Rhs) == 1 {
+		if ix, ok := ast.Unparen(s.Rhs[0]).(*ast.IndexExpr); ok && f.inLedger() && isLedgerMap(f.typeOf(ix.X)) {
+			raw := "(" + f.arg(ix.X) + "[" + f.expr(ix.Index) + "]?)"
+			out = append(out, f.flush(ind, &f.pre)...)
+			t := f.tmp("__m")
+			out = append(out, fmt.Sprintf("%slet %s : (Option LVal) := %s", ind, t, raw))
+			if id, ok := s.Lhs[0].(*ast.Ident); !ok || id.Name != "_" {
+				out = append(out, f.assignTo(s.Lhs[0], t, define, s, ind)...)
+			}
+			if id, ok := s.Lhs[1].(*ast.Ident); !ok || id.Name != "_" {
+				out = append(out, f.assignTo(s.Lhs[1], t+".isSome", define, s, ind)...)
+			}
+			return out
+		}
 		if ix, ok := ast.Unparen(s.Rhs[0]).(*ast.IndexExpr); ok && mapOf(f.typeOf(ix.X)) != nil {
 			m := mapOf(f.typeOf(ix.X))
 			g := f.expr(ix) // (mapGet ..) or ((mapGet ..).getD z)
@@ -613,6 +671,9 @@ func (f *trFunc) rangeStmt(s *ast.RangeStmt, ind string) []string {
 		f.problem(s, "range")
 		return nil
 	}
+	if f.inLedger() && isLedgerMap(t) {
+		return f.rangeLMap(s, ind)
+	}
 	if m := mapOf(t); m != nil && isStringType(m.Key()) {
 		return f.rangeMap(s, m, ind)
 	}
@@ -669,7 +730,7 @@ func (f *trFunc) rangeStmt(s *ast.RangeStmt, ind string) []string {
 	f.fuelFlag = f.fuelFlag[:len(f.fuelFlag)-1]
 	f.fuelPost = f.fuelPost[:len(f.fuelPost)-1]
 	f.loopDepth--
-	if root != nil && f.assigned[root] {
+	if root != nil && f.assigned[root] && !(f.inLedger() && (f.rangedUntouched(s) || f.modifiedThenReturn(s))) {
 		f.problem(s, "the ranged slice `%s` is modified inside the loop", f.src(s.X))
 	}
 	f.assigned[root] = before || f.assigned[root]
